@@ -684,7 +684,10 @@ func (hfh *HttpForwarderHandlerV2) constructPost(ctx context.Context, logger log
 
 func (hfh *HttpForwarderHandlerV2) DispatchEvent(ctx context.Context, e *gostatsd.Event) {
 	hfh.eventWg.Add(1)
-	go hfh.dispatchEvent(ctx, e)
+	// The event is posted after this function has returned. A caller such as the HTTP ingestion endpoint
+	// passes a request scoped context which is cancelled by then, which would abort the post (and its
+	// retries) and silently lose the event. Keep the values, not the cancellation; the retry window bounds it.
+	go hfh.dispatchEvent(context.WithoutCancel(ctx), e)
 }
 
 func (hfh *HttpForwarderHandlerV2) dispatchEvent(ctx context.Context, e *gostatsd.Event) {
